@@ -1,0 +1,6 @@
+//go:build !verif
+
+package column
+
+// verifYield is a no-op outside verification builds (see verif_hook_on.go).
+func verifYield(point int, arg uint64) {}
